@@ -68,6 +68,9 @@ type Node struct {
 	LogicalLast uint64
 	closers     []func()
 	block       chan struct{} // if non-nil, reportFn waits on it
+	// per middleware instance (reset by Restart): what the counters should say
+	CPStored, Delivered, MismatchWritten, MismatchRead uint64
+	CounterFail                                        string
 }
 
 func newInner(kind string, seg int) (raft.LogStore, func(), error) {
@@ -113,8 +116,40 @@ func (n *Node) startMiddleware() {
 // Restart replaces the middleware (as a process restart would) over the same inner store.
 func (n *Node) Restart() {
 	n.Quiesce()
+	n.CheckCounters("before restart")
 	n.V.Close()
+	n.CPStored, n.Delivered, n.MismatchWritten, n.MismatchRead = 0, 0, 0, 0
 	n.startMiddleware()
+}
+
+// CheckCounters compares the verifier's counters of the current middleware
+// instance with the true totals (C20). The first difference is remembered.
+func (n *Node) CheckCounters(when string) {
+	if n.CounterFail != "" {
+		return
+	}
+	n.mu.Lock()
+	pending := uint64(len(n.reports))
+	n.mu.Unlock()
+	c := n.Coll.Summary().Counters
+	want := map[string]uint64{
+		"checkpoints_written":     n.CPStored,
+		"ranges_verified":         n.Delivered + pending,
+		"dropped_reports":         n.CPStored - n.Delivered - pending,
+		"write_checksum_failures": n.MismatchWritten,
+		"read_checksum_failures":  n.MismatchRead,
+	}
+	if pending > 0 {
+		// undelivered-to-harness reports have not been classified yet: skip the failure split
+		delete(want, "write_checksum_failures")
+		delete(want, "read_checksum_failures")
+	}
+	for _, k := range []string{"checkpoints_written", "ranges_verified", "dropped_reports", "write_checksum_failures", "read_checksum_failures"} {
+		if w, ok := want[k]; ok && c[k] != w {
+			n.CounterFail = fmt.Sprintf("node %d %s: counter %s = %d, true total %d (checkpoints stored %d, reports delivered %d, mismatches written/read %d/%d)", n.ID, when, k, c[k], w, n.CPStored, n.Delivered, n.MismatchWritten, n.MismatchRead)
+			return
+		}
+	}
 }
 
 func (n *Node) Close() {
@@ -156,6 +191,11 @@ func (n *Node) TakeReports() []verifier.VerificationReport {
 func (n *Node) Store(logs []*raft.Log) error {
 	err := n.V.StoreLogs(logs)
 	if err == nil {
+		for _, l := range logs {
+			if ok, _ := isCheckpoint(l); ok {
+				n.CPStored++
+			}
+		}
 		n.Told.Append(logs) // post-store entries (leader checkpoints now carry Extensions)
 		n.LogicalLast = logs[len(logs)-1].Index
 	}
